@@ -125,7 +125,7 @@ def gen_frame_case(r: random.Random, task: Optional[str] = None) -> Dict[str, An
         while e["score"] in seen:
             e["score"] = round(e["score"] - 1e-6, 6)  # strictly decreasing: terminates
         seen.add(e["score"])
-    return dict(task=task, cfg=cfg, crit=crit, pf=pf, frame_id=frame_id, ego_pos=ego_pos, ego_yaw=ego_yaw, gts=gts, ests=ests, kind=kind)
+    return dict(task=task, cfg=cfg, crit=crit, pf=pf, frame_id=frame_id, ego_pos=ego_pos, ego_yaw=ego_yaw, gts=gts, ests=ests, kind=kind, gt_ids=r.choice(["unique", "unique", "none", "shared"]) if task != "tracking" else "unique")
 
 
 def build_frame(c: Dict[str, Any]):
@@ -140,9 +140,13 @@ def build_frame(c: Dict[str, Any]):
     conv = config.label_converter
     t = 1_000_000
 
+    # hand-built ground truth often carries no uuid at all (the constructor default) or one id for a whole group
+    gt_ids = c.get("gt_ids", "unique")
+
     def mk(d, is_gt):
         b = d["box"]
-        o = O.obj3d(b[0], b[1], b[2], b[3], b[4], b[5], b[6], score=1.0 if is_gt else d["score"], uuid=d["key"], t=t, npts=d.get("npts"))
+        uu = d["key"] if (not is_gt or gt_ids == "unique") else (None if gt_ids == "none" else "shared")
+        o = O.obj3d(b[0], b[1], b[2], b[3], b[4], b[5], b[6], score=1.0 if is_gt else d["score"], uuid=uu, t=t, npts=d.get("npts"))
         o.semantic_label = conv.convert_label(d["lab"] if is_gt else d["name"])
         if c["frame_id"] == "map":
             o = O.to_map(o, c["ego_pos"], c["ego_yaw"])
